@@ -102,6 +102,9 @@ func judgeC01(hst Hist) *h.Verdict {
 				if len(sessPerRG[k]) > 1 {
 					v.Label("two-sessions-one-rg")
 				}
+				if (pre.RatingType[u.RG] == 2 || op.Trig == "FINAL") && pre.Reserved[u.RG] > 0 && used*st.cost[u.RG] == pre.Reserved[u.RG] {
+					v.Label("final-price-equals-reservation")
+				}
 				if pre.RatingType[u.RG] == 2 {
 					if used*st.cost[u.RG] < pre.Reserved[u.RG] {
 						v.NT("debit-refund")
@@ -148,7 +151,7 @@ func judgeC01(hst Hist) *h.Verdict {
 }
 
 func genC01(t *rapid.T) Hist {
-	return genHist(t, genOpts{maxSubs: 3, maxSess: 3, minOps: 4, maxOps: h.Scale(24, 40), recharge: true, offline: true, bigCost: true})
+	return genHist(t, genOpts{maxSubs: 3, maxSess: 3, minOps: 4, maxOps: h.Scale(24, 40), recharge: true, offline: true, bigCost: true, mixCompliant: true})
 }
 
 func TestC01Conservation(t *testing.T) { h.Run(t, "C01", "histories", genC01, judgeC01) }
